@@ -436,6 +436,7 @@ pub fn decode_ops(data: &[u8]) -> Vec<Op> {
             0 | 1 | 2 => Op::Call(match VARS[var].1 {
                 Kind::Scalar => Call::Set(var, Val::S(val)),
                 Kind::Int => Call::Set(var, Val::I(val.bytes().fold(0i64, |a, b| a.wrapping_mul(31).wrapping_add(b as i64)))),
+                Kind::List if val.is_empty() && op % 8 == 2 => Call::Set(var, Val::L(vec![])),
                 Kind::List => Call::Set(var, Val::L(val.split(',').map(String::from).collect())),
             }),
             3 | 4 => {
